@@ -15,7 +15,7 @@ func init() {
 	register("C08", &ruleSet{
 		run:    runC08,
 		floors: map[string]int{"O1": 2, "O2": 1, "O3": 2, "O4": 3, "O5": 3, "O6": 3, "O7": 3, "O8": 1},
-		explain: "Decides necessary sign conditions of 'more latency never means more limit' for Vegas and Gradient (Gradient2 is declined: its long-term average also absorbs the " +
+		explain: "Decides necessary sign conditions of 'more latency never means more limit' for Vegas and Gradient, and for Gradient2 in its instantaneous RTT (the part of Gradient2 that goes through its long-term average is declined: the average also absorbs the " +
 			"sample, so the quotient long/short has mixed polarity syntactically; threshold ordering, rounding, probe and baseline-lowering samples are excluded): (O1) polarity: " +
 			"the control signal is monotone in the sample RTT in the right direction - Vegas's queue estimate is non-decreasing in rtt, and on every Gradient path the stored " +
 			"estimate is a non-increasing function of rtt (rtt occurs only as the divisor of a non-negative quotient under monotone maps: Max, Min, Ceil, conversions, addition of " +
@@ -23,7 +23,7 @@ func init() {
 			"that raises the estimate is decided by an upper bound on the queue estimate and every non-drop path that lowers it by a lower bound; (O3) rtt influences control flow " +
 			"only through recognised monotone idioms: the baseline-lowering test (excluded by the property), a guard whose low-rtt side yields a value proved >= the high-rtt " +
 			"side, the self-guarded smoothing idiom whose pieces meet at the old estimate, threshold comparisons of the control signal, and effect-free (logging) diamonds; any " +
-			"other rtt-dependent branch is reported. Including Gradient2: (O6) no sample is set aside by a one-sided test (C07/O5) and (O7) a reset or replacement of a baseline measurement on the sample path is not control-dependent on a test that reads the sample's RTT. (O4) and (O5) establish what the argument takes as given: the clamp of every stored estimate (C04/O1) and a smoothing factor within [0,1].",
+			"other rtt-dependent branch is reported. Including Gradient2: (O6) no sample is set aside by a one-sided test (C07/O5) and (O7) a reset or replacement of a baseline measurement on the sample path is not control-dependent on a test that reads the sample's RTT. (O8) Gradient2: the result of a latest-value measurement (Add stores and returns exactly its argument) is the sample itself; with the long-term average as given, every estimate stored on a non-drop path is a non-increasing function of it - decides the orientation of the quotient and of the clamp around it. (O4) and (O5) establish what the argument takes as given: the clamp of every stored estimate (C04/O1) and a smoothing factor within [0,1].",
 	})
 }
 
@@ -175,7 +175,7 @@ func runC08(p *Prog, l *Ledger) {
 	l.Rule("O1", "polarity: Vegas's queue estimate is non-decreasing in rtt; every estimate stored by Gradient is a non-increasing function of rtt on its path")
 	l.Rule("O2", "comparator orientation (Vegas): raising outcomes are decided by an upper bound on the queue estimate, lowering (non-drop) outcomes by a lower bound")
 	l.Rule("O3", "rtt influences control flow only through recognised monotone idioms (baseline test, dominated guard, self-guarded smoothing, control-signal thresholds, effect-free diamonds)")
-	l.NotCovered = []string{"Gradient2 (mixed syntactic polarity of long/short RTT)", "numeric ordering of the thresholds threshold <= alpha <= beta and of the step sizes", "probe and baseline-lowering samples (excluded by the property)", "rounding"}
+	l.NotCovered = []string{"Gradient2 through its long-term average (mixed syntactic polarity of long/short RTT; O8 decides the instantaneous RTT only)", "numeric ordering of the thresholds threshold <= alpha <= beta and of the step sizes", "probe and baseline-lowering samples (excluded by the property)", "rounding"}
 	l.Assume("measurement values (baselines, RTT averages) are >= 0 and are not changed by the sample under comparison (the property's proviso)")
 	l.Rule("O4", "what the monotonicity argument takes as given is established by the code: every stored estimate of the delay-based algorithms stays within its bounds (the C04/O1 rules on the same tree: a floor applied on one branch only makes a slower sample land higher)")
 	l.Rule("O5", "the smoothing factor is within [0,1]: every constructor stores a value proved >= 0 and <= 1 and nothing rewrites it (a negative weight reverses the direction of the update)")
